@@ -42,7 +42,9 @@ impl Prop for C04 {
                     1 => (-1.0..=1.0f64).prop_map(move |u| (-d + u).clamp(-60.0, 60.0)),
                 ]
                 .boxed();
-                gen::site_lat(lat, 3.0).prop_map(move |site| Case { site, method, date })
+                // the statement quantifies over all longitudes / GMT offsets: a fifth of the cases pair the longitude with
+                // an offset up to 12 h away (solar noon anywhere on the clock, also at the civil-day seam)
+                prop_oneof![4 => gen::site_lat(lat.clone(), 3.0), 1 => gen::site_lat(lat, 12.0)].prop_map(move |site| Case { site, method, date })
             })
             .boxed()
     }
